@@ -91,8 +91,10 @@ def pod_forms():
         if name in ("first", "last", "earlymorning", "lateevening"):
             continue
         for a in alts:
-            if not _single_reading(a):
+            if not _single_reading(a) and a != "afternoon":
                 continue
+            if a == "noon":
+                continue  # '<hour> in the noon' is not an expression anybody writes
             for h in range(1, 13):
                 if name == "night" and h == 12:
                     continue
@@ -100,7 +102,7 @@ def pod_forms():
                 if name in ("morning", "forenoon") and h == 12:
                     continue
                 en = a.isascii() and name != "noon" or a in ("noon",)
-                text = "{} in the {}".format(h, a) if a in ("morning", "forenoon", "afternoon", "evening", "night", "noon") else "{} uhr {}".format(h, a)
+                text = "{} in the {}".format(h, a) if a in ("morning", "forenoon", "afternoon", "evening", "night") else "{} uhr {}".format(h, a)
                 out.append(("hour in pod", text, exp, 0, name, h))
     return out
 
@@ -160,6 +162,11 @@ def run_case(case):
         if key in ("h:mm am", "h:mmam", "h:mm a.m.", "h.mm am", "hh:mm AM", "h am", "ham", "h a.m.") and h == 0:
             sig["twelve_am"] = True
         if key == "hour in pod":
-            sig["text"] = text
+            # classify the misreading so that a known finding can name it precisely
+            sig["connector"] = "in the" if " in the " in text else "uhr"
+            if got is not None and got[0] == "T" and None not in got[1:4] and got[4] is None and got[7] is not None and str(got[3]) == text.split()[0]:
+                sig["misreading"] = "day_of_month+part_of_day"
+            else:
+                sig["misreading"] = "other"
         out["v"] = [viol(sig, "{!r} at ts={} latent={} -> {} expected {}".format(text, ts_s, mode, fmt(got), fmt(exp)), exp, got)]
     return out
